@@ -389,7 +389,10 @@ def merge(prop, tier, seed, cfg, stats, wall, violation, fuzz_info):
         "property_id": prop,
         "tier": tier,
         "seed": seed,
-        "level": s0.get("level", "exploration"),
+        # the level is the one claimed for the property (checks.json -> MANIFEST level_claimed.category): a check
+        # made of several legs (histories, schedules, a fault leg) is reported at its claimed level, whichever
+        # leg's record happens to come first
+        "level": cfg.get("level") or s0.get("level", "exploration"),
         "coverage": cov,
         "assumptions": assumptions,
         "wall_s": round(wall, 2),
